@@ -550,6 +550,12 @@ func c07Audit(p *Prog, r *Report, prefixed *ssa.Function) {
 					switch {
 					case x.High == nil && lo == "1" && (rs["0 != len("+sk(x.X)+")"] || rs["0 < len("+sk(x.X)+")"]):
 						r.OK("R07b", "slice "+key, instrPos(in), "x[1:] under the fact that x is non-empty")
+					case x.High == nil && strings.HasPrefix(lo, "(") && strings.HasSuffix(lo, " + 1)") && rs[strings.TrimSuffix(strings.TrimPrefix(lo, "("), " + 1)")+" < len("+sk(x.X)+")"]:
+						r.OK("R07b", "slice "+key, instrPos(in), "x[i+1:] under the fact i < len(x)")
+					case x.Low == nil && x.High != nil && sk(x.High) == "(len("+sk(x.X)+") - 1)" && (rs["0 != len("+sk(x.X)+")"] || rs["0 < len("+sk(x.X)+")"]):
+						r.OK("R07b", "slice "+key, instrPos(in), "x[:len(x)-1] under the fact that x is non-empty")
+					case x.Low == nil && x.High != nil && (rs[sk(x.High)+" < len("+sk(x.X)+")"] || rs[sk(x.High)+" <= len("+sk(x.X)+")"]):
+						r.OK("R07b", "slice "+key, instrPos(in), "x[:i] under the fact i <= len(x)")
 					case x.High == nil && strings.HasPrefix(lo, "(strings.LastIndex("+sk(x.X)+",") && strings.HasSuffix(lo, " + 1)"):
 						r.OK("R07b", "slice "+key, instrPos(in), "strings.LastIndex(s, …)+1 lies in 0..len(s)")
 					default:
